@@ -11,12 +11,12 @@ import (
 // applies a batch atomically and appends it (with its metadata) to a WAL list.
 // Contract taken from storage/store.go and RocksDB's WriteBatch atomicity.
 type MemStore struct {
-	Tables      [5][]storage.KVPair
-	WAL         []Batch
-	OpenReaders int
-	Closed      bool
+	Tables                [5][]storage.KVPair
+	WAL                   []Batch
+	OpenReaders           int
+	Closed                bool
 	ClosedWithOpenReaders bool
-	Mutates     int
+	Mutates               int
 	// CrashAfter >= 0: every Mutate after the CrashAfter-th is dropped (the process is gone).
 	CrashAfter int
 	// BeforeMutate, if set, runs before a batch becomes visible (interleaving point).
@@ -28,6 +28,11 @@ type MemStore struct {
 	// DeferWrites models a store write that has been issued but has not completed yet.
 	DeferWrites bool
 	Pending     []Batch
+	// Covered is a ghost of the Raft log directory that sits next to the store: the
+	// greatest log index that this replica's Raft log (or snapshot store) holds.
+	// It survives restarts and crashes of the store (Raft persists an entry before
+	// it is applied); a store restored from a backup starts with a new, empty log.
+	Covered uint64
 }
 
 // Flush completes the writes deferred while DeferWrites was set.
@@ -191,7 +196,7 @@ func (s *MemStore) Clone() *MemStore {
 		}
 	}
 	c.WAL = append(c.WAL, s.WAL...)
-	return c
+	return c // Covered stays 0: the copy is not next to this store's Raft log
 }
 
 var _ storage.Store = (*MemStore)(nil)
